@@ -60,6 +60,69 @@ def roots_of(fn, t):
     return fields, locs, None
 
 
+IMMEDIATE_CTORS = ('object::Object::null', 'object::Object::bool', 'object::Object::int', 'object::Object::function')
+
+
+def _rooted_on_every_path(ctx, f, b, t, l, opname):
+    """path-sensitive form of `the local is a root`: on every path of the arm through the collection, the value the local holds
+    is either one that needs no root (built by a constructor of an immediate: null, bool, int, function) or one of the values
+    the roots argument contains on that path - an array of extra roots cut to a length the path decided (`&extra[..n]`) contains
+    its first n elements"""
+    from rules.shared import int_of
+    arms = vmx.vmx(ctx)['arms']
+    recs = arms.get(opname, {}).get('paths', [])
+    seen = 0
+    for r in recs:
+        p = r.get('path')
+        if p is None:
+            continue
+        for c in p.calls:
+            if c[0] != b or c[1] != GCN + 'run' or len(c[2]) < 2:
+                continue
+            seen += 1
+            val = deref(p.env, p.env.get('_%d' % l, ('local', l)))
+            val = uncast(val)
+            if isinstance(val, tuple) and val and val[0] == 'call' and val[1] in IMMEDIATE_CTORS:
+                continue
+            included = []
+
+            def res(v):
+                for _ in range(8):
+                    v2 = uncast(v)
+                    if isinstance(v2, tuple) and v2 and v2[0] == 'ref' and isinstance(v2[1], str) and v2[1].endswith('.*') and v2[1] not in p.env and v2[1][:-2] in p.env:
+                        v2 = p.env[v2[1][:-2]]          # `&*r`: a reborrow of the reference r
+                    elif isinstance(v2, tuple) and v2 and v2[0] == 'ref':
+                        v2 = deref(p.env, v2)
+                    if v2 == v:
+                        break
+                    v = v2
+                return v
+
+            def collect(v, depth=0):
+                v = res(v)
+                if not isinstance(v, tuple) or not v or depth > 8:
+                    return
+                if v[0] == 'agg' and str(v[1]).startswith(('Array', 'Tuple')):
+                    for x in v[3]:
+                        collect(x, depth + 1)
+                    return
+                if v[0] == 'call' and 'ops::index::Index' in v[1] and len(v[2]) == 2:
+                    base = res(v[2][0])
+                    rg = res(v[2][1])
+                    if base[0] == 'agg' and str(base[1]).startswith('Array') and rg[0] == 'agg' and str(rg[1]).endswith('RangeTo') and rg[3] and int_of(res(rg[3][0])) is not None:
+                        for x in base[3][:int_of(res(rg[3][0]))]:
+                            included.append(res(x))
+                    return
+                if v[0] == 'call' and v[1].endswith(('::as_slice', 'Deref>::deref', '::as_ref')) and v[2]:
+                    collect(v[2][0], depth + 1)
+                    return
+                included.append(v)
+            collect(c[2][1])
+            if val not in included:
+                return False
+    return seen > 0
+
+
 def bitmap_state_check(F, fn, rep, rule, require_for):
     """typestate of mark_bitmap along every path: returns list of (what, state) problems"""
     problems = []
@@ -210,6 +273,8 @@ def run(ctx, rep):
         for l in sorted(live):
             # a live local is rooted if it is itself in the slice, or a copy of a rooted local
             rooted = l in locs
+            if not rooted and arm:
+                rooted = _rooted_on_every_path(ctx, f, b, t, l, arm[0])
             rep.ob(rooted, 'R03.2', f.path, '%s root local %s' % (where, f.local_name(l)),
                    'local `%s: %s` is still used after the collection and must be a root' % (f.local_name(l), f.local_ty(l)), span_loc(t['span']))
         rep.sample({'site': where, 'fields': sorted(fields), 'locals': sorted(f.local_name(l) for l in locs), 'live_after': sorted(f.local_name(l) for l in live)})
